@@ -304,6 +304,7 @@ func TestVerifC03(t *testing.T) {
 	n := hCount(3000, 80000)
 	for i := 0; i < n; i++ {
 		hg := hRandGrammar(r, 4, 3, 7, 3, hGenOpts{noEoi: true})
+		hg = hg.withFreshStart(hg.inputs[0].Eoi)
 		ck.Case(true)
 		if i < 3 {
 			ck.Sample(hg.String())
@@ -365,10 +366,7 @@ func TestVerifC04(t *testing.T) {
 			}
 			hg.rules = append(hg.rules, Rule{LHS: e, RHS: []Sym{Sym(1 + r.Intn(hg.nt-1))}})
 		}
-		if len(hg.inputs) != 1 {
-			continue
-		}
-		hg.inputs[0].Eoi = true
+		hg = hg.withFreshStart(true)
 		ref := buildRef(hg)
 		g := hg.build()
 		tb, _, pmsg := hCompile(g, Options{})
@@ -649,11 +647,16 @@ func TestVerifC05(t *testing.T) {
 func TestVerifC06(t *testing.T) {
 	ck := vNew("C06/minimize", "seeded random grammars (<=4 nonterminals, <=3 terminals, <=9 rules, rule classes shared between rules, precedence incl. nonassoc, several inputs incl. no-eoi and repeated nonterminals), all token strings of length <=5 from every input: traces with and without minimizeDFA", false,
 		"minimize", "computeRuleClasses", "partitionStatesByAction", "refinePartitions")
+	kf := vNew("C06/minimize-final-states", "same grammars; only the class 'minimized parser stops early because a final state was merged' (known finding F17)", false, "minimize")
+	kfSeen := false
 	r := vNewRand(vSeed() + 17)
 	n := hCount(2500, 60000)
 	maxLen := hCount(5, 6)
 	for i := 0; i < n; i++ {
 		hg := hRandGrammar(r, 4, 3, 9, 3, hGenOpts{prec: i%3 == 0, noEoi: true, multiInput: true, markers: i%5 == 0})
+		if i%2 == 1 {
+			hg = hExprGrammar(r)
+		}
 		g := hg.build()
 		for k := range g.Rules {
 			g.Rules[k].Action = r.Intn(2)
@@ -690,13 +693,24 @@ func TestVerifC06(t *testing.T) {
 					continue // the unminimized tables themselves misbehave: not this property
 				}
 				if b.bad != "" || a.accept != b.accept || a.errAt != b.errAt || fmt.Sprint(a.events) != fmt.Sprint(b.events) {
-					ck.Failf(desc, "input %d tokens %q: unminimized %v accept=%v err=%d, minimized %v accept=%v err=%d %s", in, hStr(w), a.events, a.accept, a.errAt, b.events, b.accept, b.errAt, b.bad)
+					note := ""
+					prefix := len(b.events) <= len(a.events) && fmt.Sprint(a.events[:len(b.events)]) == fmt.Sprint(b.events)
+					if b.accept && prefix && b.bad == "" {
+						note = " [the minimized parser stops early with the same actions: minimizeDFA merged a final state with another state]"
+						if !kfSeen {
+							kfSeen = true
+							kf.Failf(desc, "input %d tokens %q: unminimized %v accept=%v err=%d, minimized %v accept=%v err=%d%s", in, hStr(w), a.events, a.accept, a.errAt, b.events, b.accept, b.errAt, note)
+						}
+						continue
+					}
+					ck.Failf(desc, "input %d tokens %q: unminimized %v accept=%v err=%d, minimized %v accept=%v err=%d %s%s", in, hStr(w), a.events, a.accept, a.errAt, b.events, b.accept, b.errAt, b.bad, note)
 					break outer
 				}
 			}
 		}
 	}
-	vWrite(t, nil, ck)
+	kf.Cases, kf.Nontrivial = ck.Cases, ck.Nontrivial
+	vWrite(t, nil, ck, kf)
 }
 
 // ---------- C07 ----------
